@@ -12,6 +12,8 @@ import signal
 import sys
 from collections import Counter
 
+from . import core as _core
+
 M = sys.monitoring
 E = M.events
 TOOL_PROBE = 3
@@ -141,7 +143,7 @@ def count_steps(fn, budget, prefix=None):
             return ('ok', fn(), n[0])
         except StepBudgetExceeded:
             return ('budget', None, n[0])
-        except (KeyboardInterrupt, SystemExit):
+        except (KeyboardInterrupt, SystemExit, _core.ShardCutShort):
             raise
         except BaseException as e:      # noqa
             return ('exc', e, n[0])
@@ -165,7 +167,7 @@ def with_watchdog(fn, seconds=10):
             return ('ok', v)
         except WallClock:
             return ('slow', None)
-        except (KeyboardInterrupt, SystemExit):
+        except (KeyboardInterrupt, SystemExit, _core.ShardCutShort):
             raise
         except BaseException as e:      # noqa
             return ('exc', e)
@@ -266,7 +268,7 @@ class FaultInjector:
         try:
             try:
                 return ('ok', fn())
-            except (KeyboardInterrupt, SystemExit):
+            except (KeyboardInterrupt, SystemExit, _core.ShardCutShort):
                 raise
             except BaseException as e:      # noqa
                 return ('exc', e)
